@@ -14,8 +14,9 @@ def ProvedTr : List Rule := Proved ++ ProvedTyped ++ ProvedValues
 example : ProvedTr.length = 19 := by decide
 
 /-- **perm_selections / perm_arguments / alpha_fragments** for the rules of `ProvedTr` (general form; instances as in
-    C06_inv.lean). Not covered: `PossibleFragmentSpreads` (needs the renaming of the fragment-type table),
-    `NoFragmentCycles`, `OverlappingFieldsCanBeMerged`, the four variable rules. -/
+    C06_inv.lean). The remaining rules: `PossibleFragmentSpreads`, `NoFragmentCycles` (Props/C06_inv4.lean), the four
+    variable rules (C06_inv5.lean), `SingleFieldSubscriptions` (C06_inv10.lean); all 25 together:
+    `tr_invariance_25_partial`. Not covered: `OverlappingFieldsCanBeMerged`. -/
 theorem tr_invariance_all_partial (T : Tr) (hinj : ∀ a b, T.frag a = T.frag b → a = b) (s : SchemaD) (fx : Fixes) (d : Doc)
     (r : Rule) (hr : r ∈ ProvedTr) (hns : r ≠ .singleFieldSubscriptions) : Silent s fx r (T.doc d) ↔ Silent s fx r d := by
   simp only [ProvedTr, List.mem_append] at hr
